@@ -200,7 +200,7 @@ def run(rep: vk.Report):
     for dom in ["integer", "binary"]:
         for m in ["auto", "SLSQP", "linprog"] if rep.tier == "quick" else METHODS:
             for linear in [True, False]:
-                if m == "linprog" and not linear:
+                if m in ("linprog", "highs", "highs-ds", "highs-ipm") and not linear:
                     continue
                 x = VectorVariable("q", 3, lb=0.4, ub=2.5, domain=dom)
                 y = VectorVariable("q", 3, lb=x[0].lb, ub=x[0].ub)      # the relaxation: same names and bounds, continuous
